@@ -180,3 +180,32 @@ Definition judge_fault (c : jarr * list Z) : Z :=
 (* ---- CRC-32: the Gallina function against zlib.crc32 / the CRC recorded in a real archive.  1 = differs *)
 Definition judge_crc (c : list Z * Z) : Z :=
   let '(msg, z) := c in if crc32 msg =? z then 0 else 1.
+
+(* ---- archives in which one integer member was replaced (rewritten archives): member code as in judge_missing.
+   The model is run on the saved members with that member replaced; 0 = the implementation's outcome is the model's
+   (same exception class / same array), 1 = it is not, 3 = an n-d GCXS archive with an index pointer of the wrong length
+   was loaded as an array *)
+Fixpoint replace_member (n : string) (f : field Z) (ms : members Z) : members Z :=
+  match ms with
+  | [] => []
+  | (n', f') :: r => if String.eqb n n' then (n, f) :: r else (n', f') :: replace_member n f r
+  end.
+
+Definition judge_replaced (c : jarr * Z * list Z * outcome) : Z :=
+  let '(j, code, l, o) := c in
+  let x := to_arr j in
+  if negb (wf Z x) then 9
+  else match save_members Z x with
+       | Raise _ => 9
+       | Ok ms =>
+         let m := load_members Z (replace_member (member_name code) (FInts l) ms) in
+         let bad_indptr :=
+             match x with
+             | AGcxs _ g => match g_axes g with
+                            | Some ca => (code =? 5) && negb (len l =? compressed_rows (g_shape g) ca + 1)
+                            | None => false end
+             | _ => false end in
+         if (fst o =? 100) || (fst o =? 101) then 6
+         else if bad_indptr && (fst o =? 0) then 3
+         else if agrees m o then 0 else 1
+       end.
